@@ -122,6 +122,22 @@ def handle (op : String) (args : List String) : Option String :=
       let (prev, failAt) ← run (do let p ← list nat; let f ← int; pure (p, f)) args
       let db := Checkpoint.sqlRun ⟨prev, none⟩ (Checkpoint.sqlSaveStmts 999) (if failAt < 0 then none else some failAt.toNat)
       pure (showNats db.committed)
+  | "smp.select" => do
+      let (dims, order, pool, k) ← run (do
+        let dims ← nat; let order ← list nat; let pool ← list (rep flt dims); let k ← nat; pure (dims, order, pool, k)) args
+      let _ := dims
+      pure (joinSp ((Samplers.selectLowest order pool k).map fl))
+  | "smp.bestbatch" => do
+      let (prec, lo, hi, grids, parent, shocks) ← run (do
+        let dims ← nat
+        let prec ← rep flt dims; let lo ← rep flt dims; let hi ← rep flt dims
+        let grids ← rep (list flt) dims
+        let parent ← rep flt dims
+        let shocks ← list (do let i ← nat; let sz ← nat; let pl ← bool; pure ({ idx := i, size := sz, plus := pl } : Samplers.Shock))
+        pure (prec, lo, hi, grids, parent, shocks)) args
+      let row := Samplers.applyShocks Float.ofNat prec lo hi 0.0 parent shocks
+      let snapped := Samplers.snapBatch fdist grids [row] 0.0
+      pure (fl row ++ " | " ++ joinSp (snapped.map fl))
   | "ss.check" => do
       let (b, p) ← run (do let b ← list (list flt); let p ← list flt; pure (b, p)) args
       match SearchSpace.checkBounds (0.0 : Float) b p with
